@@ -77,7 +77,7 @@ class Python2VerilogTranspiler:
         # the simulator's wires power up at 0: the output registers get the same initial value
         from py4hw.rtl_generation import getValidVerilogName
         # constructor constants first (as in transpileSequential), then the outputs
-        node.init.body = init.init.body + [VerilogVariableAssignment(VerilogWire(getValidVerilogName(outp.name)), VerilogConstant(0)) for outp in self.obj.outPorts]
+        node.init.body = init.init.body + [VerilogVariableAssignment(VerilogWire(getValidVerilogName(outp.name), final=True), VerilogConstant(0)) for outp in self.obj.outPorts]
         
         #initExtracter = ExtractInitializers(self.obj)
         #init = initExtracter.visit(node)
@@ -141,7 +141,7 @@ class Python2VerilogTranspiler:
         # the simulator's wires power up at 0: the output registers get the same initial value
         from py4hw.rtl_generation import getValidVerilogName
         for outp in self.obj.outPorts:
-            init.init.body.append(VerilogVariableAssignment(VerilogWire(getValidVerilogName(outp.name)), VerilogConstant(0)))
+            init.init.body.append(VerilogVariableAssignment(VerilogWire(getValidVerilogName(outp.name), final=True), VerilogConstant(0)))
         
         if hasattr(self.obj, 'initial'):
             # Add the initialization done at the initial method
@@ -602,6 +602,8 @@ class ReplaceWiresAndVariables(ast.NodeTransformer):
 
     def visit_VerilogWire(self, node):
         # wires created from get/put/prepare calls carry the attribute name
+        if (getattr(node, 'final', False)):
+            return node
         return self.ports.get(node.name, node)
 
     def visit_Attribute(self, node):
@@ -1010,8 +1012,10 @@ class VerilogWire(ast.AST):
     '''
     AST node for Verilog Wires
     '''
-    def __init__(self, name:str):
+    def __init__(self, name:str, final=False):
         self.name = name
+        # final: the name is already the Verilog port name (not an attribute name to be looked up)
+        self.final = final
         self._fields = tuple(['name', 'dummy'])
 
     def toVerilog(self):
